@@ -253,3 +253,34 @@ func zzC13d2WritersAnySchedule() {
 	vf.Assert("windows-identical", zzBEq(a.writeWindowBuf.Bytes(), b.readWindowBuf.Bytes()))
 	vf.Reach("end")
 }
+
+// C13.g3: large, highly compressible messages over the WebSocket transport, per-message and with
+// context takeover: a short message, the large one (its frame as short as DEFLATE permits - see the
+// flate stub), and a short one again come back byte for byte, in order, one per Read; with context
+// takeover the two windows stay identical and bounded across the large message.
+func zzC13g3CompressibleMessages() {
+	sizes := [...]int{2 << 20, 400000, 70000, 1024}
+	n := sizes[vf.Choose("size", len(sizes))]
+	v := [...]byte{0, 'a'}[vf.Choose("value", 2)]
+	takeover := vf.Choose("context.takeover", 2) == 1
+	cc := compress.Config{Enable: true, Level: [...]int{6, 1}[vf.Choose("level", 2)], DisableContextTakeover: !takeover, WindowBits: 2}
+	a, b := zzWsPair(cc)
+	big := bytes.Repeat([]byte{v}, n)
+	msgs := [][]byte{{1, 2, 3}, big, {4, 5}}
+	for i, m := range msgs {
+		vf.Assert("write-ok", a.Write(m) == nil)
+		got, err := b.Read()
+		vf.Assert("read-ok", err == nil)
+		if err != nil {
+			return
+		}
+		vf.Assert("full-length", len(got) == len(m))
+		vf.Assert("byte-for-byte", bytes.Equal(got, m))
+		if takeover {
+			vf.Assert("windows-identical-and-bounded", zzBEq(a.writeWindowBuf.Bytes(), b.readWindowBuf.Bytes()) && a.writeWindowBuf.Len() <= 4)
+		}
+		_ = i
+	}
+	vf.Assert("counters-agree", a.TxBytesCounterValue() == b.RxBytesCounterValue())
+	vf.Reach("end")
+}
